@@ -554,7 +554,7 @@ def run(ctx):
         done, ninter, complete = explore_exhaustive(ctx, pt, "sync@astd", work, cap)
         total_sched += done
         all_complete = all_complete and complete
-        ctx.extra.setdefault("exhaustive", {})[pt["name"]] = {"schedules": done, "distinct_interleavings": ninter, "complete": complete}
+        ctx.extra.setdefault("exhaustive_pairs", {})[pt["name"]] = {"schedules": done, "distinct_interleavings": ninter, "complete": complete}
     ctx.exhaustive = all_complete
     # random: cold caches in sync mode, warm+cold in async modes
     nrand_cold = 40 if ctx.quick else 600
